@@ -153,6 +153,22 @@ impl Property for C06 {
             let at = fix_insert_point(&case.pieces, at);
             case.pieces.insert(at, Piece::garbage(gen_garbage_region(rng)));
         }
+        if rng.chance(1, 4) {
+            // the producer died right after writing junk: the stream ends with a garbage
+            // token that is delimited by whitespace on the left and by end of input on the right
+            while case.pieces.last().map_or(false, |p| p.kind == Kind::Gap) {
+                case.pieces.pop();
+            }
+            if case.pieces.last().map_or(true, |p| p.kind != Kind::Garbage) {
+                case.pieces.push(Piece::garbage(gen_garbage_region(rng)));
+            }
+            if let Some(p) = case.pieces.last_mut() {
+                while p.bytes.0.last().map_or(false, |b| matches!(b, b' ' | b'\t' | b'\n' | b'\r')) {
+                    p.bytes.0.pop();
+                }
+                p.tag = "at-eof".into();
+            }
+        }
         let mut wish = PipeWish::any();
         wish.allow_corpus = false;
         if pol == Policy::Stdout {
@@ -217,6 +233,9 @@ impl Property for C06 {
             }
             if reached[0].0 <= 1 {
                 ctx.stats.probe("garbage before the first value");
+            }
+            if case.pieces.last().map_or(false, |p| p.kind == Kind::Garbage && p.tag == "at-eof") && reached.len() == regs.len() {
+                ctx.stats.probe("garbage token ends exactly at end of input");
             }
         }
         let stdout_rule = |so: &[u8]| -> Option<Violation> {
